@@ -116,9 +116,12 @@ def story_item_parts(tier, mon, *, timing_variants=True, small=False, mixed=True
         # IDs that are twins up to surrounding blanks or case, numeric-looking, markup-significant, non-ASCII
         from .. import gen
         pool = gen.EXOTIC_QUICK if tier == 'quick' else gen.EXOTIC_IDS
-        parts.append({'label': 'stories-exotic-ids', 'harness': HStory(pool=pool, cap=3, max_list=2, layouts=('before',), packings=('one',)), 'monitors': mon,
+        hs = HStory(pool=pool, cap=3, max_list=2, layouts=('before',), packings=('one',))
+        hi = HItem(pool=pool, cap=3, max_list=2, patterns=('plain',), positions=('second',), packings=('one',))
+        hs.absent_refs = hi.absent_refs = True
+        parts.append({'label': 'stories-exotic-ids', 'harness': hs, 'monitors': mon,
                       'opts': {} if tier == 'quick' else {'time_cap': 600}})
-        parts.append({'label': 'items-exotic-ids', 'harness': HItem(pool=pool, cap=3, max_list=2, patterns=('plain',), positions=('second',), packings=('one',)),
+        parts.append({'label': 'items-exotic-ids', 'harness': hi,
                       'monitors': mon, 'opts': {} if tier == 'quick' else {'time_cap': 600}})
     return parts
 
